@@ -30,6 +30,39 @@ type SW struct {
 	// ReqProofInterval, when non-zero, is sent as MsgPostFile.ProofInterval by the next PostFile (a client-requested
 	// value; the proof window of a file is the network parameter at post time)
 	ReqProofInterval int64
+	pgTick           int
+}
+
+// paging: a client paging through the storage listings this property is about sees what the one-shot listings show
+// (paging.go). Run every 4th block.
+func (s *SW) paging() {
+	s.pgTick++
+	if s.pgTick%4 != 1 {
+		return
+	}
+	mk := func(rpc string, req func() codec.ProtoMarshaler, resp codec.ProtoMarshaler) listQuery {
+		return listQuery{Path: "/canine_chain.storage.Query/" + rpc, Req: req, Resp: resp}
+	}
+	files := mk("AllFiles", func() codec.ProtoMarshaler { return &storagetypes.QueryAllFiles{} }, &storagetypes.QueryAllFilesResponse{})
+	proofs := mk("AllProofs", func() codec.ProtoMarshaler { return &storagetypes.QueryAllProofs{} }, &storagetypes.QueryAllProofsResponse{})
+	var qs []listQuery
+	switch s.rc.Prop {
+	case "C17":
+		qs = append(qs, files, proofs)
+		if len(s.Files) > 0 {
+			w := s.Files[(s.pgTick/4)%len(s.Files)]
+			qs = append(qs,
+				mk("AllFilesByOwner", func() codec.ProtoMarshaler { return &storagetypes.QueryAllFilesByOwner{Owner: w.OwnerAddr} }, &storagetypes.QueryAllFilesByOwnerResponse{}),
+				mk("AllFilesByMerkle", func() codec.ProtoMarshaler { return &storagetypes.QueryAllFilesByMerkle{Merkle: w.F.Root()} }, &storagetypes.QueryAllFilesByMerkleResponse{}))
+		}
+	case "C07":
+		qs = append(qs, files, mk("AllStoragePaymentInfo", func() codec.ProtoMarshaler { return &storagetypes.QueryAllStoragePaymentInfo{} }, &storagetypes.QueryAllStoragePaymentInfoResponse{}))
+	case "C12":
+		qs = append(qs, mk("Gauges", func() codec.ProtoMarshaler { return &storagetypes.QueryAllGauges{} }, &storagetypes.QueryAllGaugesResponse{}))
+	case "C01", "C02", "C03":
+		qs = append(qs, files, proofs)
+	}
+	checkPaging(s.rc, s.c, qs, s.pgTick/4)
 }
 
 type WFile struct {
